@@ -3,3 +3,5 @@ import SwhVerif.Lemmas.Bytes
 import SwhVerif.Lemmas.Headers
 import SwhVerif.Lemmas.Directory
 import SwhVerif.Props.C02
+import SwhVerif.Lemmas.Snapshot
+import SwhVerif.Props.C05
